@@ -68,6 +68,11 @@ RotateF(s0, now, p, reinit, nid, fault) ==
      ELSE IF fault = "store" /\ r.ok /\ r.d # "none" THEN fail(after)
      ELSE r
 
+\* Rotate with the skip-storage option: the decision and the minted roots are those of Rotate, nothing is written - but a
+\* reinitialisation still removes what was stored first.
+RotateSkip(s0, now, p, reinit, nid) ==
+  LET r == Rotate(s0, now, p, reinit, nid) IN [ok |-> r.ok, ret |-> r.s, s |-> IF reinit THEN Empty ELSE s0, minted |-> r.minted, d |-> r.d]
+
 (***************************************************************************)
 (* C08 predicates.  tol: timing tolerance of the observation (0 in the     *)
 (* pure model).  pre/post are stored records; nowLo..nowHi brackets the    *)
